@@ -11,7 +11,7 @@ written for every named output column, join types spelled in full, ASC/DESC alwa
 import random
 import sqlite3
 
-INT_COLS = ["a", "b", "c", "id"]
+INT_COLS = ["a", "b", "c", "id", "alias", "star"]    # "alias", "star": column names that are attributes of a pypika Selectable
 COLS = INT_COLS + ["s"]
 MAIN_TABLES = ["t", "u", "v", "orders", "cust", "t2", "t3"]     # t2 / t3: real tables named like the numbered alias of a re-joined t
 SCHEMA_TABLES = {"s": ["w"]}          # ATTACH ':memory:' AS "s";  "s"."w"
@@ -35,7 +35,7 @@ def _rows(rng, n):
     rows = [tuple([rng.choice(ints) for _ in INT_COLS] + [rng.choice(strs)]) for _ in range(n)]
     rows.append(rows[0])                                  # an exact duplicate
     rows.append(tuple([None] * len(COLS)))                # an all-NULL row
-    rows.append((1, 2, 3, 1, "x"))                        # one row common to every table (joins match)
+    rows.append(tuple([1, 2, 3, 1] + [1] * (len(INT_COLS) - 4) + ["x"]))   # one row common to every table (joins match)
     rng.shuffle(rows)
     return rows
 
@@ -53,11 +53,11 @@ def dbs():
             coldef = ", ".join('"%s" %s' % (c, "TEXT" if c == "s" else "INTEGER") for c in COLS) + ', "x" INTEGER'
             for tb in MAIN_TABLES:
                 db.execute('CREATE TABLE "%s" (%s)' % (tb, coldef))
-                db.executemany('INSERT INTO "%s" VALUES (?,?,?,?,?,?)' % tb, [r + (SUB_VALUE,) for r in _rows(rng, 4 + k)])
+                db.executemany('INSERT INTO "%s" VALUES (%s)' % (tb, ",".join("?" * (len(COLS) + 1))), [r + (SUB_VALUE,) for r in _rows(rng, 4 + k)])
             for sch, tbs in SCHEMA_TABLES.items():
                 for tb in tbs:
                     db.execute('CREATE TABLE "%s"."%s" (%s)' % (sch, tb, coldef))
-                    db.executemany('INSERT INTO "%s"."%s" VALUES (?,?,?,?,?,?)' % (sch, tb), [r + (SUB_VALUE,) for r in _rows(rng, 4 + k)])
+                    db.executemany('INSERT INTO "%s"."%s" VALUES (%s)' % (sch, tb, ",".join("?" * (len(COLS) + 1))), [r + (SUB_VALUE,) for r in _rows(rng, 4 + k)])
             db.commit()
             _DBS.append(db)
     return _DBS
